@@ -211,6 +211,44 @@ def fam_advanced(rng: np.random.Generator, shapes: list[tuple[int, ...]],
                    "outs": {"out": len(inputs) + 1}}
 
 
+def fam_advanced_patterns() -> Iterator[dict]:
+    """EVERY placement pattern of {index array, int, slice} over the axes of a rank-3 and a
+    rank-4 operand that contains >= 1 index array (contiguous and non-contiguous advanced
+    items, slices before / between / after them, trailing axes left out), deterministic: the
+    index arrays have shape (2,), (2, 1), (1, 2) in turn (they broadcast), the slices are
+    ``1:`` / ``::-1`` / ``:2`` in turn."""
+    slices = [{"t": "slice", "start": [1], "stop": [], "step": []},
+              {"t": "slice", "start": [], "stop": [], "step": [-1]},
+              {"t": "slice", "start": [], "stop": [2], "step": []}]
+    ishapes = [(2,), (2, 1), (1, 2)]
+    for shape in ((3, 2, 3), (2, 3, 2, 3)):
+        for k in range(1, len(shape) + 1):
+            for kinds in itertools.product(("arr", "int", "slice"), repeat=k):
+                if "arr" not in kinds:
+                    continue
+                if len(shape) == 4 and kinds.count("arr") > 2:
+                    continue
+                inputs = [inp("x", shape)]
+                items: list[dict] = []
+                na = ns = 0
+                for ax, kd in enumerate(kinds):
+                    n = shape[ax]
+                    if kd == "arr":
+                        sh = ishapes[na % len(ishapes)] if kinds.count("arr") > 1 else (2,)
+                        na += 1
+                        inputs.append(inp(f"i{len(inputs)}", sh, "i8", range=[-n, n - 1]))
+                        items.append({"t": "arr", "n": len(inputs)})
+                    elif kd == "int":
+                        items.append({"t": "int", "v": (-1 if ax % 2 else 1)})
+                    else:
+                        items.append(slices[ns % len(slices)])
+                        ns += 1
+                yield {"id": f"advp/{'x'.join(map(str, shape))}/{'-'.join(kinds)}",
+                       "inputs": inputs,
+                       "calls": [{"op": "index", "a": 1, "idx": items}],
+                       "outs": {"out": len(inputs) + 1}}
+
+
 EINSUMS = [
     ("ij,jk->ik", [(2, 3), (3, 2)]), ("ij,kj->ik", [(2, 3), (4, 3)]),
     ("ii->i", [(3, 3)]), ("ii->", [(3, 3)]), ("ij->ji", [(2, 3)]), ("ij->", [(2, 3)]),
@@ -435,6 +473,30 @@ def fam_scalars() -> Iterator[dict]:
                                  {"op": "where", "c": 2, "a": sc, "b": 1},
                                  {"op": "where", "c": 2, "a": 1, "b": sc}],
                        "outs": {"out": 3, "out_b": 4}}
+
+
+def fam_same_buffer() -> Iterator[dict]:
+    """ONE ndarray object wrapped by TWO DataWrapper nodes of one graph, the wrappers equal
+    or differing in a tag (array tag, axis tag, Named, PrefixNamed): each wrapper is an
+    argument of its own, bound to that object."""
+    w1 = {"name": "w1", "shape": [4], "dtype": "f8", "kind": "dw"}
+    w2 = {"name": "w2", "shape": [4], "dtype": "f8", "kind": "dw", "same_as": "w1"}
+    x = inp("x", (4,))
+    for tag in (None, "Foo", "Bar", "axis"):
+        calls: list[dict] = []
+        second = 2
+        if tag == "axis":
+            calls.append({"op": "tag_axis", "a": 2, "axis": 0, "tag": "Foo"})
+            second = 4
+        elif tag:
+            calls.append({"op": "tag", "a": 2, "tag": tag})
+            second = 4
+        n = 3 + len(calls)
+        calls += [{"op": "mul", "a": 1, "b": {"py": "float", "v": "2.0"}},
+                  {"op": "add", "a": n + 1, "b": second},
+                  {"op": "add", "a": n + 2, "b": 3}]
+        yield {"id": f"same_buffer/{tag}", "inputs": [w1, w2, x], "calls": calls,
+               "outs": {"out": n + 3, "out_b": second}}
 
 
 def fam_boolarith() -> Iterator[dict]:
